@@ -299,7 +299,9 @@ pub fn compare(
             let ok = if exact_prob {
                 (x.1 as f64) == y.1
             } else {
-                ((x.1 as f64) - y.1).abs() <= 1e-6 * (n.max(1) as f64) * y.1.abs().max(1e-30)
+                // relative slack for rounding in the f32 product, absolute slack of a few subnormal ulps for
+                // products that underflow
+                ((x.1 as f64) - y.1).abs() <= 1e-6 * (n.max(1) as f64) * y.1.abs() + 3e-45 * (n.max(1) as f64)
             };
             if !ok {
                 return Some(json!({
